@@ -476,7 +476,7 @@ class StyleProperties:
     def from_model(cls, xml_element, model_value):
       xml_element.set(
         f"{{{cls.ns}}}{cls.local_name}", 
-        f"{model_value.x.value:g}{model_value.x.units.value} {model_value.y.value:g}{model_value.y.units.value}"
+        f"{StyleProperties.to_ttml_length(model_value.x)} {StyleProperties.to_ttml_length(model_value.y)}"
       )
 
 
@@ -582,9 +582,9 @@ class StyleProperties:
       xml_element.set(
         f"{{{cls.ns}}}{cls.local_name}", 
         f"{model_value.h_edge.value} " \
-        f"{model_value.h_offset.value:g}{model_value.h_offset.units.value} " \
+        f"{StyleProperties.to_ttml_length(model_value.h_offset)} " \
         f"{model_value.v_edge.value} " \
-        f"{model_value.v_offset.value:g}{model_value.v_offset.units.value}"
+        f"{StyleProperties.to_ttml_length(model_value.v_offset)}"
       )
 
 
@@ -685,7 +685,7 @@ class StyleProperties:
 
     @classmethod
     def from_model(cls, xml_element, model_value: float):
-      xml_element.set(f"{{{cls.ns}}}{cls.local_name}", f"{model_value}%")
+      xml_element.set(f"{{{cls.ns}}}{cls.local_name}", f"{StyleProperties.to_ttml_number(model_value)}%")
 
 
   class ShowBackground(StyleProperty):
@@ -1164,5 +1164,12 @@ class StyleProperties:
     return color_str
 
   @staticmethod
+  def to_ttml_number(value) -> str:
+    s = f"{value:g}"
+    if "e" in s or "E" in s:
+      s = f"{value:.12f}".rstrip("0").rstrip(".")
+    return s
+
+  @staticmethod
   def to_ttml_length(model_value: styles.LengthType):
-    return f"{model_value.value:g}{model_value.units.value}"
+    return f"{StyleProperties.to_ttml_number(model_value.value)}{model_value.units.value}"
